@@ -1,7 +1,7 @@
 \* exhaustive (quick): every setBlockMesh of every H = 4 assembly (all fuel layouts, three flags), then every re-meshing of the result
 CONSTANTS H = 4  SrcPts = {1, 2, 3}  DstPts = {1, 2, 3}  Profiles = {2}  FuelChoices = {0, 1, 2, 3, 5, 7, 9}  SolveProfiles = {}
           Jitters = {"none"}  Ops = {"MakeUniform", "Snap"}  SnapFlags = {"true", "false", "auto"}
-          SnapProfiles = {2}  MaxLevel = 5
+          SnapProfiles = {2}  MoveProfiles = {}  Geoms = {"cold"}  MaxLevel = 5
 INIT Init
 NEXT Next
 CONSTRAINT Bound
